@@ -120,9 +120,34 @@ class MemErr(Exception):
         self.o = o
 
 
+def _fnv(v, kb):
+    h = 2166136261
+    for i in range(kb):
+        h ^= (v >> (8 * i)) & 0xff
+        h = (h * 16777619) & 0xffffffff
+    return h
+
+
+def prefix_keys(keybits, prefix):
+    """concrete keys inserted before the symbolic part: an int n = n distinct spread keys; 'chainN' = N distinct keys that
+    all land in the same bucket of the initial 16-bucket table (a hash chain of length N)"""
+    if isinstance(prefix, int):
+        return [1000 + 7 * i for i in range(prefix)]
+    n = int(prefix[5:])
+    kb = keybits // 8
+    out = []
+    k = 1
+    b0 = _fnv(1, kb) % 16
+    while len(out) < n:
+        if _fnv(k, kb) % 16 == b0:
+            out.append(k)
+        k += 1
+    return out
+
+
 def ob_map(mod, stats, tmo, keybits, prefix, nsym, scenario):
     """history: `prefix` concrete distinct inserts, then nsym symbolic set(k_i, v_i), then queries with a symbolic key."""
-    ex, solver = mk(mod, stats, tmo, unroll=max(64, 2 * (prefix + nsym) + 40))
+    ex, solver = mk(mod, stats, tmo, unroll=max(64, 2 * (len(prefix_keys(keybits, prefix)) + nsym) + 40))
     kb = keybits // 8
     # the hash is abstracted to an uninterpreted function of the key (any deterministic hash, so every collision
     # pattern is explored); FNV-1a itself is not part of the map's correctness argument
@@ -171,8 +196,9 @@ def ob_map(mod, stats, tmo, keybits, prefix, nsym, scenario):
                 raise MemErr('ferret_map_set reports failure', None)
         return [s for s, r in out]
     sts = [st]
-    for i in range(prefix):
-        k, v = bv(1000 + 7 * i, keybits), bv(5000 + i, 64)
+    pkeys = prefix_keys(keybits, prefix)
+    for i, kc in enumerate(pkeys):
+        k, v = bv(kc, keybits), bv(5000 + i, 64)
         sts = do_set(sts, k, v)
         hist.append((k, v))
     K = [z3.BitVec('k%d' % i, keybits) for i in range(nsym)]
@@ -229,12 +255,12 @@ def ob_map(mod, stats, tmo, keybits, prefix, nsym, scenario):
             for s, r in out:
                 npaths += 1
                 if conc_val(z3.Extract(0, 0, r)) != 1:
-                    if prefix + nsym > 0:
+                    if len(pkeys) + nsym > 0:
                         probs.append(('iter_begin refuses a non-empty map', None))
                     continue
                 seen = []
                 cur = [s]
-                for step in range(prefix + nsym + 2):
+                for step in range(len(pkeys) + nsym + 2):
                     nxt = []
                     for sx in cur:
                         ko = sx.mem.alloc(8, name='ko', kind='heap')
@@ -285,7 +311,7 @@ def replay_map(keybits, prefix, d):
     if 'keys' not in d:
         return None
     kt = 'int32_t' if keybits == 32 else 'int64_t'
-    hist = [(1000 + 7 * i, 5000 + i) for i in range(prefix)] + list(zip(d['keys'], d['values']))
+    hist = [(k, 5000 + i) for i, k in enumerate(prefix_keys(keybits, prefix))] + list(zip(d['keys'], d['values']))
     sets = '\n'.join('  { %s k = (%s)%dULL; int64_t v = (int64_t)%dULL; ferret_map_set(m, &k, &v); }' % (kt, kt, k, v) for k, v in hist)
     body = '''#include <stdio.h>
 #include <stdint.h>
@@ -358,7 +384,10 @@ def main():
     jobs.append(('map', 32, 12, 1, 'get', tmo))       # the 13th insert crosses the resize threshold with a symbolic key in flight
     jobs.append(('map', 32, 12, 1, 'size', tmo))
     jobs.append(('map', 64, 0, 1, 'all', tmo))
+    jobs.append(('map', 32, 'chain3', 1, 'all', tmo))  # one symbolic set (insert or overwrite at any chain position) on a bucket holding a chain of three
     if tier_ != 'quick':
+        jobs.append(('map', 32, 'chain4', 1, 'all', tmo))
+        jobs.append(('map', 64, 'chain3', 2, 'get', tmo))
         jobs.append(('map', 32, 0, 3, 'all', tmo))
         jobs.append(('map', 64, 12, 1, 'all', tmo))
         jobs.append(('map', 32, 24, 1, 'get', tmo))
@@ -394,7 +423,7 @@ def main():
            'obligations': len(jobs), 'obligations_held': sum(1 for r in results if r['status'] == 'held'), 'obligation_table': rows,
            'functions_encoded': sorted(funcs), 'llvm_instructions_executed': agg.instrs, 'queries': agg.queries, 'queries_unsat': agg.unsat, 'queries_sat': agg.sat,
            'queries_unknown': agg.unknown, 'solver_s': round(agg.solver_s, 2),
-           'bounds': 'arrays: ONE operation (append incl. growth, get, set, len) from an arbitrary valid state (symbolic contents, every length 0..capacity, capacity 4 (8 thorough), element sizes listed), symbolic index and element; maps: new_i32/new_i64, a concrete prefix of 0/12 distinct inserts followed by 1-2 (3 thorough) inserts with symbolic keys and values, then get / size / full iteration with a symbolic query key; the hash function is abstracted to an uninterpreted function of the key (all collision patterns), hash %% bucket_count executed as written',
+           'bounds': 'arrays: ONE operation (append incl. growth, get, set, len) from an arbitrary valid state (symbolic contents, every length 0..capacity, capacity 4 (8 thorough), element sizes listed), symbolic index and element; maps: new_i32/new_i64, a concrete prefix (none, 12 distinct spread keys, or 3-4 keys forming one hash chain) followed by 1-2 (3 thorough) inserts with symbolic keys and values, then get / size / full iteration with a symbolic query key; the hash function is abstracted to an uninterpreted function of the key (all collision patterns), hash %% bucket_count executed as written',
            'explanation': 'clang -O0 LLVM IR of array.c and map.c executed symbolically over region memory (every access outside a live region, or to a freed one, ends the path as a violation); the solver decides agreement with an abstract list step / abstract map (ite chains over the same key and value terms).',
            'not_covered': 'string and byte-blob keys, from_pairs, map_free/destroy histories, allocation failure (malloc assumed to succeed), optional.c out-layout, capacities beyond 8'}
     sys.exit(rep.finish(cov, ['malloc/calloc/realloc never fail', 'clang front end; LLVM semantics in lirsym/llvm.py; z3', 'the load-factor product bucket_count*0.75 is evaluated concretely (bucket_count is concrete on every path)']))
